@@ -196,4 +196,48 @@ def rstep (r : Res) : REv → Res
       { r with value := some (k, r.latestDep), loading := false, completedLatest := true }
     else r                       -- an aborted (older) fetch can deliver nothing
 
+/-! ### one-shot readers of a resource, each under a suspense boundary of its own
+
+`Resource::deref` under a boundary: while the resource is loading the boundary gets a guard, held by the
+resource until the latest fetch delivers; otherwise the boundary is recorded and gets its guard when the
+next fetch starts (the record is consumed by that). A reader reads once (no re-run). -/
+
+structure Reader where
+  guard : Bool               -- the boundary is kept loading by a guard the resource holds
+  recorded : Bool            -- the boundary is on the list of scopes to suspend at the next fetch
+  deriving Repr, DecidableEq
+
+structure ResR where
+  res : Res
+  alive : Bool               -- the scope that owns the resource is alive
+  readers : List Reader      -- oldest first
+  deriving Repr
+
+def ResR.init (dep : Nat) : ResR := ⟨Res.init dep, true, []⟩
+
+inductive RREv where
+  | read                     -- `u`: a new boundary reads the resource
+  | dropOldest               -- `y`: the oldest reader's scope is disposed
+  | disposeOwner             -- `x`: the scope that owns the resource is disposed: every guard it holds is dropped
+  | ev (e : REv)
+  deriving Repr
+
+def rrStep (s : ResR) : RREv → ResR
+  | .read =>
+    if !s.alive then s
+    else if s.res.loading then { s with readers := s.readers ++ [⟨true, false⟩] }
+    else { s with readers := s.readers ++ [⟨false, true⟩] }
+  | .dropOldest => { s with readers := s.readers.tail }
+  | .disposeOwner => { s with alive := false, readers := s.readers.map fun _ => ⟨false, false⟩ }
+  | .ev (.write v) =>
+    if !s.alive then s
+    else { s with res := rstep s.res (.write v),
+                  readers := s.readers.map fun r => if r.recorded then ⟨true, false⟩ else r }
+  | .ev (.finish k) =>
+    if !s.alive then s
+    else
+      let delivered := k = s.res.started && !s.res.completedLatest
+      { s with res := rstep s.res (.finish k),
+               readers := if delivered then s.readers.map fun r => { r with guard := false } else s.readers }
+
 end SycVerif.Async
